@@ -77,6 +77,20 @@ def algorithm(name, hp, fresh=False):
   key = (name, tuple(sorted((k, tuple(v) if isinstance(v, list) else v) for k, v in hp.items())))
 
   def make():
+    backend = hp.get('backend')
+    if backend:      # the for_each_client backend is chosen when the algorithm's for_each_client functions are built
+      from fedjax.core import for_each_client as fec
+      with fec.for_each_client_backend(backend):
+        return build()
+    return build()
+
+  def scal(x):
+    """hyper-parameter scalars as Python float (default), NumPy scalar or 0-d jax array"""
+    import jax.numpy as jnp
+    f = hp.get('scal')
+    return x if x is None or f is None else np.float32(x) if f == 'np' else jnp.asarray(x, jnp.float32)
+
+  def build():
     clr, slr = hp.get('clr', 0.125), hp.get('slr', 1.0)
     copt = _opt('sgd', clr)
     sopt = _opt(hp.get('sopt', 'mom'), slr)
@@ -91,18 +105,19 @@ def algorithm(name, hp, fresh=False):
       return mime.mime(per_example_loss, _opt(hp.get('bopt', 'mom'), clr), train, padded, slr)
     if name == 'mime_lite':
       return mime_lite.mime_lite(per_example_loss, _opt(hp.get('bopt', 'mom'), clr), train, padded, slr,
-                                 client_delta_clip_norm=hp.get('clip'))
+                                 client_delta_clip_norm=scal(hp.get('clip')))
     if name == 'agnostic':
       nd = hp.get('nd', 2)
       iw = hp.get('iw') or [1.0 / nd] * nd
+      iw = tuple(iw) if hp.get('iwform') == 'tuple' else np.asarray(iw, np.float64) if hp.get('iwform') == 'np' else iw
       return agnostic_fed_avg.agnostic_federated_averaging(
           per_example_loss, copt, sopt, train, padded, init_domain_weights=iw,
-          domain_learning_rate=hp.get('dlr', 0.25), domain_algorithm=hp.get('dalg', 'eg'),
+          domain_learning_rate=scal(hp.get('dlr', 0.25)), domain_algorithm=hp.get('dalg', 'eg'),
           domain_window_size=hp.get('W', 1), init_domain_window=hp.get('iwin'))
     if name == 'hyp_cluster':
       return hyp_cluster.hyp_cluster(per_example_loss, copt, sopt, padded, train)
     if name == 'apfl':
-      return apfl.adaptive_personalized_federated_learning(_grad_fn(), copt, sopt, train, hp.get('coef', 0.5))
+      return apfl.adaptive_personalized_federated_learning(_grad_fn(), copt, sopt, train, scal(hp.get('coef', 0.5)))
     raise ValueError(name)
   return make() if fresh else cached(key, make)
 
@@ -159,8 +174,15 @@ def client_rng(seed, rnd, idx):
   return jax.random.fold_in(jax.random.fold_in(jax.random.PRNGKey(seed), rnd), idx)
 
 
-def cid(i):
-  return b'c%02d' % i
+def cid(i, form='bytes'):
+  """Client id of population index i: bytes (default) or str; form '...0' makes the id of client 0 the empty (falsy) one."""
+  if form.endswith('0') and i == 0:
+    return '' if form.startswith('str') else b''
+  return ('c%02d' % i) if form.startswith('str') else (b'c%02d' % i)
+
+
+def cid_index(k):
+  return int(k[1:]) if len(k) else 0
 
 
 # ---- bit-exact snapshots -------------------------------------------------------
